@@ -221,20 +221,58 @@ func genC18Resolve(e *Engine, pkg *ssa.Package, lists []string, size int64) ([]F
 	add(lr, "ensures", "ok", fmt.Sprintf("result1.itab == nil ==> result0 != nil && notmine(result0, %d) && %s && %s", rawSize, cfgok("result0.Config", "notmine"), listok("result0.Inherits", "notmine")), 0)
 	lr.Modifies = []string{"nothing"}
 	reg(lr)
-	// Load: assumed at the recursive call, and verified against the same contract
-	ld := mk("(*Loader).Load", false)
-	add(ld, "requires", "loader", "l != nil", 0)
-	add(ld, "ensures", "ok", fmt.Sprintf("result1.itab == nil ==> result0 != nil && %s", cfgok("result0", "valid")), 0)
-	add(ld, "ensures", "error-xor-result", "result1.itab != nil ==> result0 == nil", 0)
-	ld.Modifies = []string{"nothing"}
-	reg(ld)
-	// at call sites Load's result is memory the caller did not allocate
-	ldc := mk("(*Loader).Load", true)
-	add(ldc, "ensures", "ok", fmt.Sprintf("result1.itab == nil ==> result0 != nil && notmine(result0, %d) && %s", size, cfgok("result0", "notmine")), 0)
-	add(ldc, "ensures", "error-xor-result", "result1.itab != nil ==> result0 == nil", 0)
-	ldc.Modifies = []string{"nothing"}
-	if fn := ResolveFunc(pkg, ldc.Key); fn != nil {
-		e.Contracts[fullName(fn)] = ldc
+	// Load (and, where the working tree has it, the internal entry point `load` that
+	// carries the chain of targets being resolved): assumed at the recursive call, and
+	// verified against the same contract. When the entry point walks a chain of the
+	// targets being resolved, reaching the chain's head again must be an error (the
+	// whole chain, and termination, are decided by the bounded graph families only).
+	entries := []string{"(*Loader).Load"}
+	if fn := ResolveFunc(pkg, "(*Loader).load"); fn != nil {
+		entries = append(entries, "(*Loader).load")
+	}
+	for _, key := range entries {
+		ld := mk(key, false)
+		recv, nameP, chainP := "l", "name", ""
+		if fn := ResolveFunc(pkg, key); fn != nil {
+			if len(fn.Params) >= 2 {
+				recv, nameP = fn.Params[0].Name(), fn.Params[1].Name()
+			}
+			if len(fn.Params) == 3 {
+				if pt, ok := fn.Params[2].Type().Underlying().(*types.Pointer); ok {
+					if stt, ok := pt.Elem().Underlying().(*types.Struct); ok && stt.NumFields() >= 1 {
+						if b, ok := stt.Field(0).Type().Underlying().(*types.Basic); ok && b.Info()&types.IsString != 0 {
+							chainP = fn.Params[2].Name() + "." + stt.Field(0).Name()
+							cp := fn.Params[2].Name()
+							add(ld, "ensures", "reached-again-is-an-error", fmt.Sprintf("%s != nil && old(%s) == %s ==> result1.itab != nil", cp, chainP, nameP), 0)
+							// the walk: once past the head of the chain, the head did not match
+							if lv := firstLoopVar(fn); lv != "" {
+								add(ld, "invariant", "head-did-not-match", fmt.Sprintf("%s != nil && %s != %s ==> %s != %s", cp, lv, cp, chainP, nameP), 1)
+							}
+						}
+					}
+				}
+			}
+			for i := range fn.Blocks {
+				_ = i
+			}
+			if hasLoop(fn) {
+				add(ld, "invariant", "walk", "true", 1)
+			}
+			_ = chainP
+		}
+		add(ld, "requires", "loader", recv+" != nil", 0)
+		add(ld, "ensures", "ok", fmt.Sprintf("result1.itab == nil ==> result0 != nil && %s", cfgok("result0", "valid")), 0)
+		add(ld, "ensures", "error-xor-result", "result1.itab != nil ==> result0 == nil", 0)
+		ld.Modifies = []string{"nothing"}
+		reg(ld)
+		// at call sites the result is memory the caller did not allocate
+		ldc := mk(key, true)
+		add(ldc, "ensures", "ok", fmt.Sprintf("result1.itab == nil ==> result0 != nil && notmine(result0, %d) && %s", size, cfgok("result0", "notmine")), 0)
+		add(ldc, "ensures", "error-xor-result", "result1.itab != nil ==> result0 == nil", 0)
+		ldc.Modifies = []string{"nothing"}
+		if fn := ResolveFunc(pkg, ldc.Key); fn != nil {
+			e.Contracts[fullName(fn)] = ldc
+		}
 	}
 	recvName := func(key string) string {
 		if fn := ResolveFunc(pkg, key); fn != nil && fn.Signature.Recv() != nil {
@@ -261,7 +299,7 @@ func genC18Resolve(e *Engine, pkg *ssa.Package, lists []string, size int64) ([]F
 	// position, the accumulator as "the first argument of the mergeConfig calls".
 	acc, recvN, rawN := "result", "l", "raw"
 	if fn := ResolveFunc(pkg, "(*Loader).resolveInheritance"); fn != nil {
-		if len(fn.Params) == 2 {
+		if len(fn.Params) >= 2 {
 			recvN, rawN = fn.Params[0].Name(), fn.Params[1].Name()
 		}
 		if syn, ok := fn.Syntax().(*ast.FuncDecl); ok && syn.Body != nil {
@@ -312,4 +350,35 @@ func genC18Resolve(e *Engine, pkg *ssa.Package, lists []string, size int64) ([]F
 		return nil, fmt.Errorf("%s", strings.Join(errs, "; "))
 	}
 	return out, nil
+}
+
+// hasLoop: the function's control-flow graph has a back edge.
+func hasLoop(fn *ssa.Function) bool {
+	for _, b := range fn.Blocks {
+		for _, s := range b.Succs {
+			if s.Index <= b.Index && s.Dominates(b) {
+				return true
+			}
+		}
+	}
+	return false
+}
+
+// firstLoopVar: the variable declared by the init statement of the function's
+// first for statement (`for c := chain; ...`), "" if there is none.
+func firstLoopVar(fn *ssa.Function) string {
+	name := ""
+	if syn, ok := fn.Syntax().(*ast.FuncDecl); ok && syn.Body != nil {
+		ast.Inspect(syn.Body, func(n ast.Node) bool {
+			if fs, ok := n.(*ast.ForStmt); ok && name == "" {
+				if as, ok := fs.Init.(*ast.AssignStmt); ok && len(as.Lhs) == 1 {
+					if id, ok := as.Lhs[0].(*ast.Ident); ok {
+						name = id.Name
+					}
+				}
+			}
+			return name == ""
+		})
+	}
+	return name
 }
